@@ -21,6 +21,10 @@ package main
 //      mouse M/m) and depend on nothing but the report; a key-carrying final (u ~ R S) is consumed
 //      without an event only behind a discriminator no key report satisfies
 
+// Before any rule runs, c03Normalise (c03norm.go) substitutes single-definition boolean flags into their uses and
+// unrolls range loops over small constant tables, so that the rules see the conditions / rows themselves.
+// Rule h also follows local lists in which a CSI.Parameters value is built before it is stored (c03_len.go).
+
 import (
 	"fmt"
 	"go/ast"
@@ -95,6 +99,7 @@ func runC03(c *Ctx) {
 	c.expect("C03.g", 10)
 	c.expect("C03.i", 3)
 
+	c03Normalise(c)
 	x := &c03Env{c: c}
 	x.pk = c.P.Pkg("vaxis")
 	if x.pk == nil {
